@@ -24,6 +24,7 @@ TRACE_ENTRY_FILES = (  # pre-emption at function entry only (cheap): enough to i
     'forml/io/asset/_directory/level/major.py',
     'forml/io/asset/_directory/level/minor.py',
     'forml/io/asset/_directory/level/root.py',
+    'forml/io/layout/_codec.py',  # request decoding / response encoding run on the gateway's thread pool
 )
 
 
